@@ -697,10 +697,10 @@ func (st *c08State) decoderOne(pre, form []byte, hexIn string) {
 func (st *c08State) nregTies() {
 	var vals []uint32
 	for i := 0; i < 128; i++ {
-		vals = append(vals, f32b(float32(i)))        // real 1 byte, coordinate 1 byte (i<64)
-		vals = append(vals, f32b(float32(i)/120))    // zero-to-one 1 byte
-		vals = append(vals, f32b(float32(i)+0.5))    // coordinate 2 bytes
-		vals = append(vals, f32b(float32(i*100)))    // real 2 bytes
+		vals = append(vals, f32b(float32(i)))     // real 1 byte, coordinate 1 byte (i<64)
+		vals = append(vals, f32b(float32(i)/120)) // zero-to-one 1 byte
+		vals = append(vals, f32b(float32(i)+0.5)) // coordinate 2 bytes
+		vals = append(vals, f32b(float32(i*100))) // real 2 bytes
 	}
 	st.batch(vals)
 }
